@@ -5,6 +5,10 @@
 // Every case is plain data (the concrete inputs); the check functions are
 // pure: they build fresh slices from the case, call the code under test and
 // compare with reference implementations written here independently of it.
+//
+// The functions under test are generic.  A case names the element type they
+// are instantiated with (field Elem, "" = int); the inputs, the references
+// and the messages stay in ints and kinds.go converts at the call.
 package pslice
 
 import (
@@ -15,6 +19,7 @@ import (
 	"sort"
 
 	"github.com/creachadair/mds/slice"
+	"verif/elem"
 	"verif/vk"
 )
 
@@ -206,6 +211,21 @@ type EditCase struct {
 	BigDel []int `json:"bigdel,omitempty"`
 	BigIns []int `json:"bigins,omitempty"`
 	Swap   bool  `json:"swap,omitempty"`
+	// Elem is the element kind EditScript is instantiated with ("" = int, see
+	// kinds.go).  LID / RID / BID give the identities of the elements of Lhs /
+	// Rhs / Buf by position (missing entries are 0): for the kinds with
+	// identities two elements are == iff value AND identity agree, so the same
+	// values with different identities are DIFFERENT inputs (for ptr / any:
+	// distinct pointers to deeply equal pointees); for f64 an odd identity makes
+	// a zero negative, which leaves it == to the other zero; other kinds ignore
+	// them.
+	Elem string `json:"elem,omitempty"`
+	LID  []int  `json:"lid,omitempty"`
+	RID  []int  `json:"rid,omitempty"`
+	BID  []int  `json:"bid,omitempty"`
+	// Share (kind "words" only): elements that are a prefix of another element
+	// are re-slices of it, so different strings start at the same address.
+	Share bool `json:"share,omitempty"`
 }
 
 // lcsLen is the two-row dynamic programme for the LCS length (long inputs).
@@ -227,10 +247,11 @@ func lcsLen(a, b []int) int {
 	return int(prev[len(b)])
 }
 
-var c11Names = []string{
+var c11Names = append([]string{
 	"inputs_equal", "an_input_empty", "lcs_len=0", "script_has_replace", "script_edits>=5",
 	"distinct_lcs=1", "distinct_lcs=2..9", "distinct_lcs>=10", "len>=30", "len(lhs)*len(rhs)>2^20", "len(lhs)*len(rhs)>2^24",
-}
+	"same_values_but_different_elements", "equal_elements_that_are_distinguishable(+0,-0)",
+}, elemClassNames...)
 
 const (
 	c11Equal = iota
@@ -244,6 +265,9 @@ const (
 	c11Long
 	c11Big
 	c11Big24
+	c11Twins
+	c11Zeros
+	c11Elem // first of the elem=<kind> classes
 )
 
 func opName(op slice.EditOp) string {
@@ -263,20 +287,43 @@ func opName(op slice.EditOp) string {
 // spanOf reports whether s is exactly in[pos:pos+len(s)]: the same backing
 // array at that offset and (therefore, and also checked against the pristine
 // copy) the same contents.
-func spanOf(s, in, pristine []int, pos int) string {
+func spanOf[T any](k *ek[T], s, in, pristine []T, pos int) string {
 	if pos+len(s) > len(in) {
 		return fmt.Sprintf("span of length %d at offset %d runs past the end of the input (length %d)", len(s), pos, len(in))
 	}
 	if len(s) > 0 && &s[0] != &in[pos] {
-		return fmt.Sprintf("span %v does not share storage with the input at offset %d", brief(s), pos)
+		return fmt.Sprintf("span %v does not share storage with the input at offset %d", k.brief(s), pos)
 	}
-	if !slices.Equal(s, pristine[pos:pos+len(s)]) {
-		return fmt.Sprintf("span holds %v, the input at offset %d holds %v", brief(s), pos, brief(pristine[pos:pos+len(s)]))
+	if !k.equal(s, pristine[pos:pos+len(s)]) {
+		return fmt.Sprintf("span holds %v, the input at offset %d holds %v", k.brief(s), pos, k.brief(pristine[pos:pos+len(s)]))
 	}
 	return ""
 }
 
-func checkEdit(c EditCase) (in info, msg string) {
+// checkEdit instantiates the check with the element kind of the case.
+func checkEdit(c EditCase) (info, string) {
+	switch c.Elem {
+	case "", elem.Int:
+		return checkEditOf(c, intKit())
+	case elem.Str:
+		return checkEditOf(c, strKit())
+	case kindWords:
+		return checkEditOf(c, wordsKit(c.Share))
+	case elem.I16:
+		return checkEditOf(c, i16Kit())
+	case elem.Wide:
+		return checkEditOf(c, wideKit())
+	case elem.Ptr:
+		return checkEditOf(c, ptrKit())
+	case elem.Any:
+		return checkEditOf(c, anyKit())
+	case elem.F64:
+		return checkEditOf(c, f64Kit())
+	}
+	return info{}, badKind("EditScript", c.Elem)
+}
+
+func checkEditOf[T comparable](c EditCase, k *ek[T]) (in info, msg string) {
 	if c.BigN > 0 {
 		n := min(c.BigN, 9000)
 		c.Lhs = make([]int, n)
@@ -306,36 +353,67 @@ func checkEdit(c EditCase) (in info, msg string) {
 		}
 	}
 	big := len(c.Lhs)*len(c.Rhs) > 1<<20
-	lhs, rhs := slices.Clone(c.Lhs), slices.Clone(c.Rhs)
 	if c.Buf != nil {
-		buf := slices.Clone(c.Buf)
+		// the values and identities of the two windows
+		win := func(w [2]int) (vs, ids []int) {
+			vs = slices.Clone(c.Buf[w[0]:w[1]])
+			for i := range vs {
+				ids = append(ids, idAt(c.BID, w[0]+i))
+			}
+			return
+		}
+		c.Lhs, c.LID = win(c.LV)
+		c.Rhs, c.RID = win(c.RV)
+	}
+	if m := k.allFit(c.Lhs, c.Rhs, c.Buf); m != "" {
+		return in, m
+	}
+	// The elements: the same (value, identity) is the same element wherever
+	// it occurs in the two inputs.  cl and cr are what the references see.
+	lhs, rhs := k.all(c.Lhs, c.LID), k.all(c.Rhs, c.RID)
+	if c.Buf != nil {
+		buf := k.all(c.Buf, c.BID)
 		lhs, rhs = buf[c.LV[0]:c.LV[1]], buf[c.RV[0]:c.RV[1]]
-		c.Lhs, c.Rhs = slices.Clone(lhs), slices.Clone(rhs)
 	}
+	pl, pr := slices.Clone(lhs), slices.Clone(rhs) // the inputs as they were
+	cl, cr := k.codes(c.Lhs, c.LID), k.codes(c.Rhs, c.RID)
+	name := "EditScript" + k.tag
 	errf := func(format string, args ...any) string {
-		return fmt.Sprintf("EditScript(lhs=%s, rhs=%s): ", brief(c.Lhs), brief(c.Rhs)) + fmt.Sprintf(format, args...)
+		return fmt.Sprintf("%s(lhs=%s, rhs=%s): ", name, k.brief(pl), k.brief(pr)) + fmt.Sprintf(format, args...)
 	}
-	var script []slice.Edit[int]
+	var script []slice.Edit[T]
 	if pv := vk.PanicValue(func() { script = slice.EditScript(lhs, rhs) }); pv != nil {
 		return in, errf("panicked: %v", pv)
 	}
-	if !slices.Equal(lhs, c.Lhs) {
-		return in, errf("lhs was modified, now %s", brief(lhs))
+	if !k.equal(lhs, pl) {
+		return in, errf("lhs was modified, now %s", k.brief(lhs))
 	}
-	if !slices.Equal(rhs, c.Rhs) {
-		return in, errf("rhs was modified, now %s", brief(rhs))
+	if !k.equal(rhs, pr) {
+		return in, errf("rhs was modified, now %s", k.brief(rhs))
+	}
+	// edits are printed through their elements' texts (for int: as before)
+	disp := func(e slice.Edit[T]) slice.Edit[string] {
+		return slice.Edit[string]{Op: e.Op, X: k.shows(e.X), Y: k.shows(e.Y)}
+	}
+	dispAll := func() []slice.Edit[string] {
+		out := make([]slice.Edit[string], len(script))
+		for i, e := range script {
+			out[i] = disp(e)
+		}
+		return out
 	}
 
 	// (validity) execute the script.
 	lpos, rpos, emitted := 0, 0, 0
-	var out []int
-	for k, e := range script {
+	var out []T    // what the script produces
+	var outC []int // ... as the references see it
+	for i, e := range script {
 		l0, r0 := lpos, rpos // offsets before this edit
 		where := func(format string, args ...any) string {
 			if len(script) > 40 || len(e.X)+len(e.Y) > 200 {
-				return errf("script of %d edits, edit #%d %s with %d/%d elements (at lhs offset %d, rhs offset %d): ", len(script), k, opName(e.Op), len(e.X), len(e.Y), l0, r0) + fmt.Sprintf(format, args...)
+				return errf("script of %d edits, edit #%d %s with %d/%d elements (at lhs offset %d, rhs offset %d): ", len(script), i, opName(e.Op), len(e.X), len(e.Y), l0, r0) + fmt.Sprintf(format, args...)
 			}
-			return errf("script %v, edit #%d %v (at lhs offset %d, rhs offset %d): ", script, k, e, l0, r0) + fmt.Sprintf(format, args...)
+			return errf("script %v, edit #%d %v (at lhs offset %d, rhs offset %d): ", dispAll(), i, disp(e), l0, r0) + fmt.Sprintf(format, args...)
 		}
 		useX, useY := false, false
 		switch e.Op {
@@ -357,44 +435,48 @@ func checkEdit(c EditCase) (in info, msg string) {
 			return in, where("%s with empty Y (no empty edits / Replace needs both sides)", opName(e.Op))
 		}
 		if !useX && len(e.X) != 0 {
-			return in, where("%s must have empty X, has %v", opName(e.Op), e.X)
+			return in, where("%s must have empty X, has %v", opName(e.Op), k.shows(e.X))
 		}
 		if !useY && len(e.Y) != 0 {
-			return in, where("%s must have empty Y, has %v", opName(e.Op), e.Y)
+			return in, where("%s must have empty Y, has %v", opName(e.Op), k.shows(e.Y))
 		}
 		if useX {
-			if m := spanOf(e.X, lhs, c.Lhs, lpos); m != "" {
+			if m := spanOf(k, e.X, lhs, pl, lpos); m != "" {
 				return in, where("X is not the span of lhs at the current offset: %s", m)
 			}
 		}
 		if useY {
-			if m := spanOf(e.Y, rhs, c.Rhs, rpos); m != "" {
+			if m := spanOf(k, e.Y, rhs, pr, rpos); m != "" {
 				return in, where("Y is not the span of rhs at the current offset: %s", m)
 			}
 		}
+		// from here on X is lhs[lpos:lpos+len(X)] and Y is rhs[rpos:rpos+len(Y)]
 		switch e.Op {
 		case slice.OpDrop:
 			lpos += len(e.X)
 		case slice.OpEmit:
-			// the emitted lhs elements must be the next rhs elements
-			if rpos+len(e.X) > len(rhs) || !slices.Equal(e.X, c.Rhs[rpos:rpos+len(e.X)]) {
-				return in, where("emitting %v does not produce the next elements of rhs %v", e.X, brief(c.Rhs[min(rpos, len(c.Rhs)):]))
+			// the emitted lhs elements must be (==) the next rhs elements
+			if rpos+len(e.X) > len(rhs) || !slices.Equal(cl[lpos:lpos+len(e.X)], cr[rpos:rpos+len(e.X)]) {
+				return in, where("emitting %v does not produce the next elements of rhs %v", k.shows(e.X), k.brief(pr[min(rpos, len(pr)):]))
 			}
 			out = append(out, e.X...)
+			outC = append(outC, cl[lpos:lpos+len(e.X)]...)
 			emitted += len(e.X)
 			lpos += len(e.X)
 			rpos += len(e.X)
 		case slice.OpCopy:
 			out = append(out, e.Y...)
+			outC = append(outC, cr[rpos:rpos+len(e.Y)]...)
 			rpos += len(e.Y)
 		case slice.OpReplace:
 			out = append(out, e.Y...)
+			outC = append(outC, cr[rpos:rpos+len(e.Y)]...)
 			lpos += len(e.X)
 			rpos += len(e.Y)
 		}
 		// (canonical form) relations between neighbours
-		if k > 0 {
-			p := script[k-1].Op
+		if i > 0 {
+			p := script[i-1].Op
 			if p == e.Op {
 				return in, where("two adjacent %s edits", opName(e.Op))
 			}
@@ -406,26 +488,29 @@ func checkEdit(c EditCase) (in info, msg string) {
 	}
 	if len(script) > 0 {
 		if lpos != len(lhs) {
-			return in, errf("script %v consumes %d of %d lhs elements", script, lpos, len(lhs))
+			return in, errf("script %v consumes %d of %d lhs elements", dispAll(), lpos, len(lhs))
 		}
-		if rpos != len(rhs) || !slices.Equal(out, c.Rhs) {
-			return in, errf("script %v produces %s, want rhs", script, brief(out))
+		if rpos != len(rhs) || !slices.Equal(outC, cr) {
+			return in, errf("script %v produces %s, want rhs", dispAll(), k.brief(out))
 		}
 	}
-	eq := slices.Equal(c.Lhs, c.Rhs)
+	// lhs == rhs, by the equality of the element type: the same values AND
+	// the same identities (which f64 does not have: +0 == -0)
+	eq := slices.Equal(cl, cr)
 	if eq != (len(script) == 0) {
 		if eq {
-			return in, errf("inputs are equal but the script is not empty: %v", script)
+			return in, errf("inputs are equal but the script is not empty: %v", dispAll())
 		}
 		return in, errf("inputs differ but the script is empty")
 	}
 	if len(script) == 0 {
 		emitted = len(lhs) // the empty script means: output equals input
 	}
+	in.set(c11Elem + elemClass(k.kind))
 
 	// (minimality) kept elements == LCS length by the reference table.
 	if big {
-		if want := lcsLen(c.Lhs, c.Rhs); emitted != want {
+		if want := lcsLen(cl, cr); emitted != want {
 			return in, errf("script of %d edits keeps %d elements, a longest common subsequence has %d", len(script), emitted, want)
 		}
 		in.nt = c.BigMod > 0
@@ -435,13 +520,13 @@ func checkEdit(c EditCase) (in info, msg string) {
 		in.setIf(len(script) >= 5, c11Edits5)
 		return in, ""
 	}
-	S := lcsTable(c.Lhs, c.Rhs)
+	S := lcsTable(cl, cr)
 	if want := int(S[0]); emitted != want {
-		return in, errf("script %v keeps %d elements, a longest common subsequence has %d", script, emitted, want)
+		return in, errf("script %v keeps %d elements, a longest common subsequence has %d", dispAll(), emitted, want)
 	}
 
 	// classification
-	n := countDistinctLCS(c.Lhs, c.Rhs, S)
+	n := countDistinctLCS(cl, cr, S)
 	in.nt = n >= 2
 	in.setIf(eq, c11Equal)
 	in.setIf(len(lhs) == 0 || len(rhs) == 0, c11Empty)
@@ -451,7 +536,21 @@ func checkEdit(c EditCase) (in info, msg string) {
 	in.setIf(n >= 2 && n <= 9, c11Few)
 	in.setIf(n >= 10, c11Many)
 	in.setIf(len(lhs) >= 30 || len(rhs) >= 30, c11Long)
+	in.setIf(!eq && slices.Equal(c.Lhs, c.Rhs), c11Twins)
+	if k.kind == elem.F64 {
+		in.setIf(hasNegZero(c.Lhs, c.LID) || hasNegZero(c.Rhs, c.RID), c11Zeros)
+	}
 	return in, ""
+}
+
+// hasNegZero: some zero of the f64 sequence (vs, ids) is negative.
+func hasNegZero(vs, ids []int) bool {
+	for i, v := range vs {
+		if v == 0 && idAt(ids, i)&1 == 1 {
+			return true
+		}
+	}
+	return false
 }
 
 func runC11(c EditCase, o *vk.Obs) string {
@@ -478,12 +577,25 @@ type SeqCase struct {
 	// Wide stretches the values linearly over the whole int range, so that
 	// differences of elements overflow.  The order of the elements is unchanged.
 	Wide bool `json:"wide,omitempty"`
+	// Elem is the element kind ("" = int, see kinds.go).  The natural order
+	// (LIS / LNDS) needs an ordered kind: int, string, i16, f64; the …Func
+	// variants take every kind, and with a kind that has identities every
+	// position holds an element of its own (equal values, different elements).
+	// Wide stretches over the value range of the kind.
+	Elem string `json:"elem,omitempty"`
+	// Neg and NaN (kind f64 only) are positions, taken modulo the length.  A
+	// zero at a position of Neg is -0.0 (== +0.0: equal in every order used
+	// here).  With the natural order the element at a position of NaN is a
+	// NaN, whatever Vs holds there.
+	Neg []int `json:"neg,omitempty"`
+	NaN []int `json:"nan,omitempty"`
 }
 
-// widen maps the values linearly onto the whole int range: the smallest
-// becomes math.MinInt, the largest (nearly) math.MaxInt; the order of the
-// elements is unchanged.
-func widen(vs []int) []int {
+// widen maps the values linearly onto the range [klo, khi] (the whole int
+// range for int elements): the smallest becomes klo, the largest (nearly)
+// khi; the order of the elements is unchanged.  Values that span more than
+// the range are left alone.
+func widen(vs []int, klo, khi int) []int {
 	if len(vs) == 0 {
 		return vs
 	}
@@ -491,10 +603,13 @@ func widen(vs []int) []int {
 	if lo == hi {
 		return vs
 	}
-	step := math.MaxUint64 / uint64(hi-lo)
+	step := (uint64(khi) - uint64(klo)) / uint64(hi-lo)
+	if step == 0 {
+		return vs
+	}
 	out := make([]int, len(vs))
 	for i, v := range vs {
-		out[i] = int(uint64(1)<<63 + uint64(v-lo)*step) // two's complement: MinInt + offset
+		out[i] = int(uint64(klo) + uint64(v-lo)*step) // two's complement: klo + offset
 	}
 	return out
 }
@@ -525,11 +640,12 @@ func refLongestFast(vs []int, cmpf func(a, b int) int, strict bool) int {
 	return len(tails)
 }
 
-var c12SeqNames = []string{
+var c12SeqNames = append([]string{
 	"cmp=nat", "cmp=rev", "cmp=half", "empty", "all_equivalent", "whole_input_nondecreasing",
 	"strictly_decreasing", "has_adjacent_equal_run", "lnds>lis", "lnds>=lis+3", "len>=50",
 	"len>32768", "len>65536", "optimum>32768", "optimum>65536", "values_span_more_than_half_the_int_range",
-}
+	"f64_input_has_NaN", "f64_input_has_-0",
+}, elemClassNames...)
 
 const (
 	c12Nat = iota
@@ -548,9 +664,60 @@ const (
 	c12Opt15
 	c12Opt16
 	c12Wide
+	c12NaN
+	c12NegZero
+	c12SeqElem // first of the elem=<kind> classes
 )
 
-func checkSeq(c SeqCase) (in info, msg string) {
+// natural calls LIS / LNDS at an ordered element type.
+func natural[T cmp.Ordered](vs []T, strict bool) []T {
+	if strict {
+		return slice.LIS(vs)
+	}
+	return slice.LNDS(vs)
+}
+
+// checkSeq instantiates the check with the element kind of the case.
+func checkSeq(c SeqCase) (info, string) {
+	switch c.Elem {
+	case "", elem.Int:
+		return checkSeqOf(c, intKit(), natural[int])
+	case elem.Str:
+		return checkSeqOf(c, strKit(), natural[string])
+	case elem.I16:
+		return checkSeqOf(c, i16Kit(), natural[int16])
+	case elem.F64:
+		return checkSeqOf(c, f64Kit(), natural[float64])
+	case elem.Wide:
+		return checkSeqOf(c, wideKit(), nil)
+	case elem.Ptr:
+		return checkSeqOf(c, ptrKit(), nil)
+	case elem.Any:
+		return checkSeqOf(c, anyKit(), nil)
+	case elem.Bytes:
+		return checkSeqOf(c, bytesKit(), nil)
+	}
+	return info{}, badKind("LIS/LNDS", c.Elem)
+}
+
+// embedsT is embeds on elements: the result must consist of the very
+// elements of the input (k.strict), in their order.
+func embedsT[T any](k *ek[T], sub, in []T) bool {
+	j := 0
+	for _, x := range sub {
+		for j < len(in) && !k.strict(in[j], x) {
+			j++
+		}
+		if j == len(in) {
+			return false
+		}
+		j++
+	}
+	return true
+}
+
+// checkSeqOf: nat is nil when the kind has no natural order.
+func checkSeqOf[T any](c SeqCase, k *ek[T], nat func(vs []T, strict bool) []T) (in info, msg string) {
 	if len(c.Vs) == 0 && len(c.Segs) > 0 {
 		for _, sg := range c.Segs {
 			for i := 0; i < sg[2]; i++ {
@@ -559,7 +726,7 @@ func checkSeq(c SeqCase) (in info, msg string) {
 		}
 	}
 	if c.Wide && c.Cmp != "diff" && c.Cmp != "half" { // a-b is not an ordering once differences overflow
-		c.Vs = widen(c.Vs)
+		c.Vs = widen(c.Vs, k.lo, k.hi)
 	} else {
 		c.Wide = false
 	}
@@ -591,81 +758,156 @@ func checkSeq(c SeqCase) (in info, msg string) {
 		natural = true
 		in.set(c12Nat)
 	}
-	var wantLIS, wantLNDS int
-	if len(c.Vs) <= 1500 {
-		wantLIS = refLongest(c.Vs, cmpf, true)
-		wantLNDS = refLongest(c.Vs, cmpf, false)
-		// the two references are written independently; they must agree
-		if f1, f2 := refLongestFast(c.Vs, cmpf, true), refLongestFast(c.Vs, cmpf, false); f1 != wantLIS || f2 != wantLNDS {
-			panic(fmt.Sprintf("harness error: reference DP gives %d/%d, patience reference %d/%d for %v", wantLIS, wantLNDS, f1, f2, c.Vs))
+	if natural && nat == nil {
+		return in, badKind("LIS/LNDS (natural order)", c.Elem)
+	}
+	if m := k.allFit(c.Vs); m != "" {
+		return in, m
+	}
+	in.set(c12SeqElem + elemClass(k.kind))
+	n := len(c.Vs)
+
+	// The elements.  In the natural order equal values are equal elements; a
+	// comparison function only looks at the values, so there every position
+	// gets an element of its own where the kind has identities.  f64: the
+	// zeros at the positions Neg are negative, and (natural order) the
+	// positions NaN hold NaNs.  mv is what the references see: a NaN counts as
+	// a value below all others, as in cmp.Compare; novs is the input without
+	// its NaNs.
+	neg := make([]bool, n)
+	var isNaN []bool
+	mv, novs, nanV := c.Vs, c.Vs, 0
+	if k.kind == elem.F64 && n > 0 {
+		for _, p := range c.Neg {
+			i := (p%n + n) % n
+			neg[i] = true
+			in.setIf(c.Vs[i] == 0, c12NegZero)
 		}
-	} else {
-		wantLIS = refLongestFast(c.Vs, cmpf, true)
-		wantLNDS = refLongestFast(c.Vs, cmpf, false)
+		if natural && len(c.NaN) > 0 {
+			isNaN = make([]bool, n)
+			for _, p := range c.NaN {
+				isNaN[(p%n+n)%n] = true
+			}
+			nanV = slices.Min(c.Vs) - 1
+			mv, novs = slices.Clone(c.Vs), nil
+			for i, v := range c.Vs {
+				if isNaN[i] {
+					mv[i] = nanV
+				} else {
+					novs = append(novs, v)
+				}
+			}
+			in.set(c12NaN)
+		}
+	}
+	orig := make([]T, n)
+	for i, v := range c.Vs {
+		switch {
+		case isNaN != nil && isNaN[i]:
+			orig[i] = any(math.NaN()).(T)
+		case k.hasID && !natural:
+			orig[i] = k.mk(v, i+1)
+		case neg[i]:
+			orig[i] = k.get(v, 1)
+		default:
+			orig[i] = k.get(v, 0)
+		}
+	}
+	// vOf is the model value of an element that came back.
+	vOf := func(x T) int {
+		if isNaN != nil && k.isNaN(x) {
+			return nanV
+		}
+		return k.v(x)
+	}
+	cmpT := func(a, b T) int { return cmpf(k.v(a), k.v(b)) }
+
+	longest := func(vs []int) (lis, lnds int) {
+		if len(vs) <= 1500 {
+			lis = refLongest(vs, cmpf, true)
+			lnds = refLongest(vs, cmpf, false)
+			// the two references are written independently; they must agree
+			if f1, f2 := refLongestFast(vs, cmpf, true), refLongestFast(vs, cmpf, false); f1 != lis || f2 != lnds {
+				panic(fmt.Sprintf("harness error: reference DP gives %d/%d, patience reference %d/%d for %v", lis, lnds, f1, f2, vs))
+			}
+			return lis, lnds
+		}
+		return refLongestFast(vs, cmpf, true), refLongestFast(vs, cmpf, false)
+	}
+	wantLIS, wantLNDS := longest(mv)
+	// With NaNs in the input the documentation leaves open whether they take
+	// part in the order (cmp.Compare: below everything, equal to each other)
+	// or are incomparable (<): the length must reach the optimum of the
+	// NaN-free elements and cannot exceed the optimum under cmp.Compare.
+	lowLIS, lowLNDS := wantLIS, wantLNDS
+	if isNaN != nil {
+		lowLIS, lowLNDS = longest(novs)
 	}
 
 	for _, strict := range []bool{true, false} {
-		name, want := "LNDS", wantLNDS
+		name, want, low := "LNDS", wantLNDS, lowLNDS
 		if strict {
-			name, want = "LIS", wantLIS
+			name, want, low = "LIS", wantLIS, lowLIS
 		}
 		if !natural {
 			name += "Func[" + c.Cmp + "]"
 		}
+		name += k.tag
 		errf := func(format string, args ...any) string {
 			if len(c.Segs) > 0 {
 				return fmt.Sprintf("%s(%d elements: arithmetic runs {start,step,len} %v): ", name, len(c.Vs), c.Segs) + fmt.Sprintf(format, args...)
 			}
-			return fmt.Sprintf("%s(%s): ", name, brief(c.Vs)) + fmt.Sprintf(format, args...)
+			return fmt.Sprintf("%s(%s): ", name, k.brief(orig)) + fmt.Sprintf(format, args...)
 		}
-		vs := slices.Clone(c.Vs)
-		var got []int
+		vs := slices.Clone(orig)
+		var got []T
 		pv := vk.PanicValue(func() {
 			switch {
-			case natural && strict:
-				got = slice.LIS(vs)
 			case natural:
-				got = slice.LNDS(vs)
+				got = nat(vs, strict)
 			case strict:
-				got = slice.LISFunc(vs, cmpf)
+				got = slice.LISFunc(vs, cmpT)
 			default:
-				got = slice.LNDSFunc(vs, cmpf)
+				got = slice.LNDSFunc(vs, cmpT)
 			}
 		})
 		if pv != nil {
 			return in, errf("panicked: %v", pv)
 		}
 		got = slices.Clone(got) // the result may alias the input; freeze it before comparing
-		if !slices.Equal(vs, c.Vs) {
-			return in, errf("the input was modified, now %s", brief(vs))
+		if !k.equal(vs, orig) {
+			return in, errf("the input was modified, now %s", k.brief(vs))
 		}
-		if !embeds(got, c.Vs, same) {
-			return in, errf("result %s is not a subsequence of the input", brief(got))
+		if !embedsT(k, got, orig) {
+			return in, errf("result %s is not a subsequence of the input", k.brief(got))
 		}
 		for i := 1; i < len(got); i++ {
-			d := cmpf(got[i-1], got[i])
+			d := cmpf(vOf(got[i-1]), vOf(got[i]))
 			if d > 0 || (strict && d == 0) {
 				kind := "non-decreasing"
 				if strict {
 					kind = "strictly increasing"
 				}
-				return in, errf("result %s is not %s at position %d (%d then %d)", brief(got), kind, i, got[i-1], got[i])
+				return in, errf("result %s is not %s at position %d (%s then %s)", k.brief(got), kind, i, k.show(got[i-1]), k.show(got[i]))
 			}
 		}
-		if len(got) != want {
-			return in, errf("result %s has length %d, the optimum (reference DP / patience sorting) is %d", brief(got), len(got), want)
+		if isNaN != nil {
+			if len(got) < low || len(got) > want {
+				return in, errf("result %s has length %d; the input holds NaNs, so the length must lie between the optimum of the elements that are not NaN (%d) and the optimum in the order of cmp.Compare, NaN below everything (%d)", k.brief(got), len(got), low, want)
+			}
+		} else if len(got) != want {
+			return in, errf("result %s has length %d, the optimum (reference DP / patience sorting) is %d", k.brief(got), len(got), want)
 		}
 	}
 
 	// classification
 	in.nt = wantLNDS > wantLIS
-	n := len(c.Vs)
 	in.setIf(n == 0, c12SeqEmpty)
 	in.setIf(n > 1 && wantLIS == 1 && wantLNDS == n, c12AllEq)
 	in.setIf(n > 1 && wantLNDS == n, c12Sorted)
 	run := false
 	for i := 1; i < n; i++ {
-		if cmpf(c.Vs[i-1], c.Vs[i]) == 0 {
+		if cmpf(mv[i-1], mv[i]) == 0 {
 			run = true
 		}
 	}
@@ -679,7 +921,7 @@ func checkSeq(c SeqCase) (in info, msg string) {
 	in.setIf(wantLNDS > 1<<15, c12Opt15)
 	in.setIf(wantLNDS > 1<<16, c12Opt16)
 	if c.Wide && n > 0 {
-		in.setIf(uint(slices.Max(c.Vs))-uint(slices.Min(c.Vs)) > math.MaxInt, c12Wide)
+		in.setIf(uint(slices.Max(c.Vs))-uint(slices.Min(c.Vs)) > (uint(k.hi)-uint(k.lo))/2, c12Wide)
 	}
 	return in, ""
 }
@@ -711,6 +953,15 @@ type LCSCase struct {
 	// second argument (As is ignored).  Win is clamped to the slice.
 	Lay int    `json:"lay,omitempty"`
 	Win [2]int `json:"win,omitempty"`
+	// Elem is the element kind ("" = int, see kinds.go; LCS needs a comparable
+	// one, LCSFunc takes all).  AID / BID are the identities of the elements of
+	// As / Bs by position, as in EditCase: LCS matches elements by ==, that is
+	// value AND identity; the folding equality of LCSFunc looks at the value
+	// only.  Share: see EditCase.
+	Elem  string `json:"elem,omitempty"`
+	AID   []int  `json:"aid,omitempty"`
+	BID   []int  `json:"bid,omitempty"`
+	Share bool   `json:"share,omitempty"`
 }
 
 // window clamps w to a valid window of a slice of length n.
@@ -720,12 +971,12 @@ func window(w [2]int, n int) (lo, hi int) {
 	return
 }
 
-var c12LCSNames = []string{
+var c12LCSNames = append([]string{
 	"LCS(==)", "LCSFunc(fold)", "an_input_empty", "lcs_len=0", "len(as)>len(bs)", "len(as)<len(bs)",
 	"len(as)==len(bs)", "distinct_lcs=1", "distinct_lcs=2..9", "distinct_lcs>=10", "len>=50",
 	"fold_merges_distinct_elements", "inputs_are_adjacent_windows_of_one_buffer", "one_input_is_a_window_of_the_other",
-	"inputs_start_at_the_same_element",
-}
+	"inputs_start_at_the_same_element", "equal_values_that_are_different_elements",
+}, elemClassNames...)
 
 const (
 	c12Plain = iota
@@ -743,24 +994,77 @@ const (
 	c12Adjacent
 	c12Window
 	c12SameStart
+	c12Twins
+	c12LCSElem // first of the elem=<kind> classes
 )
 
-func foldEq(a, b int) bool { return a>>1 == b>>1 }
+// plainLCS calls LCS at a comparable element type.
+func plainLCS[T comparable](as, bs []T) []T { return slice.LCS(as, bs) }
 
-func checkLCS(c LCSCase) (in info, msg string) {
+// checkLCS instantiates the check with the element kind of the case.
+func checkLCS(c LCSCase) (info, string) {
+	switch c.Elem {
+	case "", elem.Int:
+		return checkLCSOf(c, intKit(), plainLCS[int])
+	case elem.Str:
+		return checkLCSOf(c, strKit(), plainLCS[string])
+	case kindWords:
+		return checkLCSOf(c, wordsKit(c.Share), plainLCS[string])
+	case elem.I16:
+		return checkLCSOf(c, i16Kit(), plainLCS[int16])
+	case elem.Wide:
+		return checkLCSOf(c, wideKit(), plainLCS[elem.WideElem])
+	case elem.Ptr:
+		return checkLCSOf(c, ptrKit(), plainLCS[*elem.Cell])
+	case elem.Any:
+		return checkLCSOf(c, anyKit(), plainLCS[any])
+	case elem.F64:
+		return checkLCSOf(c, f64Kit(), plainLCS[float64])
+	case elem.Bytes:
+		return checkLCSOf(c, bytesKit(), nil)
+	}
+	return info{}, badKind("LCS/LCSFunc", c.Elem)
+}
+
+// idWindow is the identity list of the window [lo, hi) of a sequence.
+func idWindow(ids []int, lo, hi int) []int {
+	if len(ids) == 0 {
+		return nil
+	}
+	out := make([]int, hi-lo)
+	for i := range out {
+		out[i] = idAt(ids, lo+i)
+	}
+	return out
+}
+
+// checkLCSOf: plain is nil when the kind is not comparable (LCSFunc only).
+func checkLCSOf[T any](c LCSCase, k *ek[T], plain func(as, bs []T) []T) (in info, msg string) {
 	switch c.Lay {
 	case 4:
 		lo, hi := window(c.Win, len(c.As))
-		c.Bs = slices.Clone(c.As[lo:hi])
+		c.Bs, c.BID = slices.Clone(c.As[lo:hi]), idWindow(c.AID, lo, hi)
 	case 5:
 		lo, hi := window(c.Win, len(c.Bs))
-		c.As = slices.Clone(c.Bs[lo:hi])
+		c.As, c.AID = slices.Clone(c.Bs[lo:hi]), idWindow(c.BID, lo, hi)
 	}
-	name := "LCS"
+	if !c.Fold && plain == nil {
+		return in, badKind("LCS", c.Elem)
+	}
+	if m := k.allFit(c.As, c.Bs); m != "" {
+		return in, m
+	}
+	// ca, cb: what the references see.  Without fold an element is its code
+	// (value and identity: the == of the element type), with fold its letter.
+	name := "LCS" + k.tag
 	eq := same
-	ca, cb := c.As, c.Bs // equivalence classes
+	ca, cb := k.codes(c.As, c.AID), k.codes(c.Bs, c.BID)
+	plainA, plainB := ca, cb
+	foldT := func(a, b T) bool { return k.v(a)>>1 == k.v(b)>>1 }
 	if c.Fold {
-		name, eq = "LCSFunc[a>>1==b>>1]", foldEq
+		name = "LCSFunc[a>>1==b>>1]" + k.tag
+		sh := k.foldShift()
+		eq = func(a, b int) bool { return a>>sh == b>>sh }
 		ca, cb = make([]int, len(c.As)), make([]int, len(c.Bs))
 		for i, v := range c.As {
 			ca[i] = v >> 1
@@ -769,6 +1073,8 @@ func checkLCS(c LCSCase) (in info, msg string) {
 			cb[i] = v >> 1
 		}
 	}
+	// the arguments as they must be found afterwards
+	pa, pb := k.all(c.As, c.AID), k.all(c.Bs, c.BID)
 	errf := func(format string, args ...any) string {
 		lay := ""
 		switch c.Lay {
@@ -781,13 +1087,13 @@ func checkLCS(c LCSCase) (in info, msg string) {
 			lo, hi := window(c.Win, len(c.Bs))
 			lay = fmt.Sprintf(" [as is bs[%d:%d], the same memory]", lo, hi)
 		}
-		return fmt.Sprintf("%s(as=%s, bs=%s)%s: ", name, brief(c.As), brief(c.Bs), lay) + fmt.Sprintf(format, args...)
+		return fmt.Sprintf("%s(as=%s, bs=%s)%s: ", name, k.brief(pa), k.brief(pb), lay) + fmt.Sprintf(format, args...)
 	}
-	as, bs := slices.Clone(c.As), slices.Clone(c.Bs)
+	as, bs := slices.Clone(pa), slices.Clone(pb)
 	if c.Lay != 0 {
 		na, nb := len(c.As), len(c.Bs)
 		const gap = 3
-		buf := make([]int, 0, na+nb+2*gap)
+		buf := make([]T, 0, na+nb+2*gap)
 		switch c.Lay {
 		case 4:
 			lo, hi := window(c.Win, na)
@@ -796,52 +1102,55 @@ func checkLCS(c LCSCase) (in info, msg string) {
 			lo, hi := window(c.Win, nb)
 			as = bs[lo:hi]
 		case 1:
-			buf = append(append(buf, c.As...), c.Bs...)
+			buf = append(append(buf, pa...), pb...)
 			as, bs = buf[:na], buf[na:na+nb]
 		case 2:
-			buf = append(append(buf, c.Bs...), c.As...)
+			buf = append(append(buf, pb...), pa...)
 			bs, as = buf[:nb], buf[nb:nb+na]
 		default:
-			buf = append(append(append(buf, c.As...), -7, -7, -7), c.Bs...)
+			g := k.get(-7, 0)
+			buf = append(append(append(buf, pa...), g, g, g), pb...)
 			as, bs = buf[:na], buf[na+gap:na+gap+nb]
 		}
 	}
-	var got []int
+	var got []T
 	pv := vk.PanicValue(func() {
 		if c.Fold {
-			got = slice.LCSFunc(as, bs, foldEq)
+			got = slice.LCSFunc(as, bs, foldT)
 		} else {
-			got = slice.LCS(as, bs)
+			got = plain(as, bs)
 		}
 	})
 	if pv != nil {
 		return in, errf("panicked: %v", pv)
 	}
 	got = slices.Clone(got)
-	if !slices.Equal(as, c.As) {
-		return in, errf("as was modified, now %s", brief(as))
+	if !k.equal(as, pa) {
+		return in, errf("as was modified, now %s", k.brief(as))
 	}
-	if !slices.Equal(bs, c.Bs) {
-		return in, errf("bs was modified, now %s", brief(bs))
+	if !k.equal(bs, pb) {
+		return in, errf("bs was modified, now %s", k.brief(bs))
 	}
-	if !embeds(got, c.As, eq) {
-		return in, errf("result %s is not a subsequence of as", brief(got))
+	gotC := k.codesOf(got)
+	if !embeds(gotC, plainA, eq) {
+		return in, errf("result %s is not a subsequence of as", k.brief(got))
 	}
-	if !embeds(got, c.Bs, eq) {
-		return in, errf("result %s is not a subsequence of bs", brief(got))
+	if !embeds(gotC, plainB, eq) {
+		return in, errf("result %s is not a subsequence of bs", k.brief(got))
 	}
 	for i, x := range got {
-		if !slices.Contains(c.As, x) && !slices.Contains(c.Bs, x) {
-			return in, errf("result %s: element #%d = %d occurs in neither input", brief(got), i, x)
+		if !k.contains(pa, x) && !k.contains(pb, x) {
+			return in, errf("result %s: element #%d = %s occurs in neither input", k.brief(got), i, k.show(x))
 		}
 	}
 	S := lcsTable(ca, cb)
 	if want := int(S[0]); len(got) != want {
-		return in, errf("result %s has length %d, the optimum (textbook DP) is %d", brief(got), len(got), want)
+		return in, errf("result %s has length %d, the optimum (textbook DP) is %d", k.brief(got), len(got), want)
 	}
 
 	n := countDistinctLCS(ca, cb, S)
 	in.nt = n >= 2
+	in.set(c12LCSElem + elemClass(k.kind))
 	in.setIf(!c.Fold, c12Plain)
 	in.setIf(c.Fold, c12Fold)
 	in.setIf(len(as) == 0 || len(bs) == 0, c12LEmpty)
@@ -858,6 +1167,8 @@ func checkLCS(c LCSCase) (in info, msg string) {
 	in.setIf(c.Lay >= 4 && len(as) > 0 && len(bs) > 0 && &as[0] == &bs[0], c12SameStart)
 	if c.Fold {
 		in.setIf(lcsTable(c.As, c.Bs)[0] < S[0], c12FoldUsed)
+	} else if k.hasID {
+		in.setIf(lcsTable(c.As, c.Bs)[0] > S[0], c12Twins)
 	}
 	return in, ""
 }
@@ -886,6 +1197,16 @@ type UtilCase struct {
 	Spare int    `json:"spare,omitempty"`
 	Keep  []int  `json:"keep,omitempty"`
 	Rows  []int  `json:"rows,omitempty"`
+	// Elem is the element kind ("" = int, see kinds.go; all kinds, and the
+	// 1-byte b8 except for Stripe).  Dup (Partition only) lists positions,
+	// modulo N, whose elements are EQUAL-LOOKING but distinguishable, for the
+	// kinds that have such elements: with ptr / any distinct pointers to deeply
+	// equal pointees, with string / wide / bytes the value dupValue with
+	// different identities, with f64 the zeros -0.0 (where Keep keeps) and +0.0
+	// (where it drops), which are == although the predicate tells them apart.
+	// The predicate stays a function of the element.
+	Elem string `json:"elem,omitempty"`
+	Dup  []int  `json:"dup,omitempty"`
 }
 
 const (
@@ -893,6 +1214,7 @@ const (
 	fillBase = -1000
 	sentinel = -7777
 	maxUtilN = 100000
+	dupValue = elemBase - 1
 )
 
 // batchesLargerFirst switches on the extra demand of DESIGN.md §5/C17 that
@@ -902,12 +1224,12 @@ const (
 // demanded, and the order is recorded as a class.
 const batchesLargerFirst = false
 
-var c17Names = []string{
+var c17Names = append([]string{
 	"fn=Partition", "fn=Rotate", "fn=Chunks", "fn=Batches", "fn=Head", "fn=Tail", "fn=Stripe", "fn=At", "fn=PtrAt",
 	"empty_slice", "documented_panic_expected", "spare_capacity", "rotate_gcd>1", "at_boundary",
 	"partition_needs_swaps", "uneven_pieces", "batches_larger_first", "batches_larger_last", "negative_index_valid",
-	"n>=50",
-}
+	"n>=50", "partition_equal_looking_elements",
+}, elemClassNames...)
 
 const (
 	c17FnPartition = iota
@@ -930,6 +1252,8 @@ const (
 	c17LargerLast
 	c17NegIdx
 	c17Big
+	c17Dups
+	c17Elem // first of the elem=<kind> classes
 )
 
 func gcdRef(a, b int) int {
@@ -954,7 +1278,35 @@ func near(x int, pts ...int) bool {
 	return false
 }
 
-func checkUtil(c UtilCase) (in info, msg string) {
+// checkUtil instantiates the check with the element kind of the case.
+func checkUtil(c UtilCase) (info, string) {
+	switch c.Elem {
+	case "", elem.Int:
+		return checkUtilOf(c, intKit())
+	case elem.Str:
+		return checkUtilOf(c, strKit())
+	case elem.I16:
+		return checkUtilOf(c, i16Kit())
+	case elem.Wide:
+		return checkUtilOf(c, wideKit())
+	case elem.Ptr:
+		return checkUtilOf(c, ptrKit())
+	case elem.Any:
+		return checkUtilOf(c, anyKit())
+	case elem.F64:
+		return checkUtilOf(c, f64Kit())
+	case elem.Bytes:
+		return checkUtilOf(c, bytesKit())
+	case kindB8:
+		if c.Fn == "Stripe" {
+			break // its row elements do not fit a byte
+		}
+		return checkUtilOf(c, b8Kit())
+	}
+	return info{}, badKind(c.Fn, c.Elem)
+}
+
+func checkUtilOf[T any](c UtilCase, k *ek[T]) (in info, msg string) {
 	n, spare := c.N, c.Spare
 	if n < 0 {
 		n = 0
@@ -962,50 +1314,84 @@ func checkUtil(c UtilCase) (in info, msg string) {
 	if n > maxUtilN {
 		n = maxUtilN
 	}
+	switch k.kind { // the narrow kinds have fewer distinct elements
+	case kindB8:
+		n = min(n, b8MaxN)
+	case elem.I16:
+		n = min(n, 30000)
+	}
 	if spare < 0 {
 		spare = 0
 	}
 	if spare > 64 {
 		spare = 64
 	}
-	k := c.K
-	arr := make([]int, n+spare+1)
+	kk := c.K
+	keepIdx := func(i int) bool { return i >= 0 && i < len(c.Keep) && c.Keep[i] != 0 }
+	// dup[i]: element i is one of the equal-looking elements (Partition, and
+	// only for the kinds that have distinguishable equal-looking elements)
+	var dup []bool
+	var dupPos []int
+	if c.Fn == "Partition" && n > 0 && len(c.Dup) > 0 && (k.hasID || k.kind == elem.F64) {
+		dup = make([]bool, n)
+		for _, p := range c.Dup {
+			dup[(p%n+n)%n] = true
+		}
+		for i, d := range dup {
+			if d {
+				dupPos = append(dupPos, i)
+			}
+		}
+	}
+	arr := make([]T, n+spare+1)
 	for i := 0; i < n; i++ {
-		arr[i] = elemBase + i
+		switch {
+		case dup == nil || !dup[i]:
+			arr[i] = k.get(elemBase+i, 0)
+		case k.kind == elem.F64:
+			if keepIdx(i) {
+				arr[i] = k.get(0, 1) // -0.0
+			} else {
+				arr[i] = k.get(0, 0)
+			}
+		default:
+			arr[i] = k.mk(dupValue, i+1)
+		}
 	}
 	for j := 0; j < spare; j++ {
-		arr[n+j] = fillBase - j
+		arr[n+j] = k.get(fillBase-j, 0)
 	}
-	arr[n+spare] = sentinel
+	arr[n+spare] = k.get(sentinel, 0)
+	orig := slices.Clone(arr) // the memory as it was
 	vs := arr[0 : n : n+spare]
 
-	call := c.Fn
+	call := c.Fn + k.tag
 	errf := func(format string, args ...any) string {
 		return call + ": " + fmt.Sprintf(format, args...)
 	}
 	// behind checks the memory behind the slice: spare capacity and sentinel.
 	behind := func() string {
 		for j := 0; j < spare; j++ {
-			if arr[n+j] != fillBase-j {
-				return errf("the spare capacity behind the slice was written: position len+%d holds %d, was %d", j, arr[n+j], fillBase-j)
+			if !k.strict(arr[n+j], orig[n+j]) {
+				return errf("the spare capacity behind the slice was written: position len+%d holds %s, was %s", j, k.show(arr[n+j]), k.show(orig[n+j]))
 			}
 		}
-		if arr[n+spare] != sentinel {
-			return errf("the element after the slice's capacity was overwritten with %d", arr[n+spare])
+		if !k.strict(arr[n+spare], orig[n+spare]) {
+			return errf("the element after the slice's capacity was overwritten with %s", k.show(arr[n+spare]))
 		}
 		return ""
 	}
 	// untouched checks that the slice still holds its original elements in order.
 	untouched := func() string {
 		for i := 0; i < n; i++ {
-			if arr[i] != elemBase+i {
-				return errf("the input slice was modified: element %d is now %d (was %d)", i, arr[i], elemBase+i)
+			if !k.strict(arr[i], orig[i]) {
+				return errf("the input slice was modified: element %d is now %s (was %s)", i, k.show(arr[i]), k.show(orig[i]))
 			}
 		}
 		return behind()
 	}
 	// pieces checks a list of consecutive subslices covering vs.
-	pieces := func(out [][]int) (minLen, maxLen int, m string) {
+	pieces := func(out [][]T) (minLen, maxLen int, m string) {
 		off := 0
 		minLen, maxLen = 1<<30, 0
 		for idx, p := range out {
@@ -1013,11 +1399,11 @@ func checkUtil(c UtilCase) (in info, msg string) {
 				return 0, 0, errf("piece #%d of length %d at offset %d runs past the end of the input; pieces have lengths %v", idx, len(p), off, lens(out))
 			}
 			if len(p) > 0 && &p[0] != &vs[off] {
-				return 0, 0, errf("piece #%d %s does not alias the input at offset %d; pieces have lengths %v", idx, brief(p), off, lens(out))
+				return 0, 0, errf("piece #%d %s does not alias the input at offset %d; pieces have lengths %v", idx, k.brief(p), off, lens(out))
 			}
 			for q := range p {
-				if p[q] != elemBase+off+q {
-					return 0, 0, errf("piece #%d holds %s, want the input elements from offset %d", idx, brief(p), off)
+				if !k.strict(p[q], orig[off+q]) {
+					return 0, 0, errf("piece #%d holds %s, want the input elements from offset %d", idx, k.brief(p), off)
 				}
 			}
 			if idx < len(out)-1 && cap(p) != len(p) {
@@ -1035,17 +1421,37 @@ func checkUtil(c UtilCase) (in info, msg string) {
 	in.setIf(n == 0 && c.Fn != "Stripe", c17Empty)
 	in.setIf(spare > 0 && c.Fn != "Stripe", c17Spare)
 	in.setIf(n >= 50, c17Big)
+	in.set(c17Elem + elemClass(k.kind))
 
 	switch c.Fn {
 	case "Partition":
 		in.set(c17FnPartition)
-		keepIdx := func(i int) bool { return i >= 0 && i < len(c.Keep) && c.Keep[i] != 0 }
-		var want []int
+		// indexOf finds the original position of an element of the slice: by
+		// its value, or (equal-looking elements) by what tells it apart.  The
+		// +0.0 / -0.0 of f64 occur several times; any of their positions will
+		// do, they share the keep decision.
+		indexOf := func(x T, free []bool) int {
+			v := k.v(x)
+			if i := v - elemBase; i >= 0 && i < n && (dup == nil || !dup[i]) {
+				if k.strict(x, orig[i]) && (free == nil || free[i]) {
+					return i
+				}
+				return -1
+			}
+			for _, p := range dupPos {
+				if k.strict(x, orig[p]) && (free == nil || free[p]) {
+					return p
+				}
+			}
+			return -1
+		}
+		keepT := func(x T) bool { return keepIdx(indexOf(x, nil)) }
+		var want []T
 		pat := make([]int, n)
 		swaps, seenDrop := false, false
 		for i := 0; i < n; i++ {
 			if keepIdx(i) {
-				want = append(want, elemBase+i)
+				want = append(want, orig[i])
 				pat[i] = 1
 				if seenDrop {
 					swaps = true
@@ -1054,17 +1460,21 @@ func checkUtil(c UtilCase) (in info, msg string) {
 				seenDrop = true
 			}
 		}
-		call = fmt.Sprintf("Partition(%d distinct elements %d.., keep pattern %s, spare capacity %d)", n, elemBase, brief(pat), spare)
-		var got []int
-		if pv := vk.PanicValue(func() { got = slice.Partition(vs, func(v int) bool { return keepIdx(v - elemBase) }) }); pv != nil {
+		call = fmt.Sprintf("Partition%s(%d distinct elements %d.., keep pattern %s, spare capacity %d)", k.tag, n, elemBase, brief(pat), spare)
+		if dup != nil {
+			call = fmt.Sprintf("Partition%s(%d elements %s, keep pattern %s, spare capacity %d)", k.tag, n, k.brief(orig[:n]), brief(pat), spare)
+			in.set(c17Dups)
+		}
+		var got []T
+		if pv := vk.PanicValue(func() { got = slice.Partition(vs, keepT) }); pv != nil {
 			return in, errf("panicked: %v", pv)
 		}
 		m := len(want)
 		if len(got) != m {
-			return in, errf("result %s has length %d, want the %d kept elements %s", brief(got), len(got), m, brief(want))
+			return in, errf("result %s has length %d, want the %d kept elements %s", k.brief(got), len(got), m, k.brief(want))
 		}
-		if !slices.Equal(got, want) {
-			return in, errf("result %s, want the kept elements in their original order %s", brief(got), brief(want))
+		if !k.equal(got, want) {
+			return in, errf("result %s, want the kept elements in their original order %s", k.brief(got), k.brief(want))
 		}
 		if n > 0 {
 			if m > 0 && &got[0] != &vs[0] {
@@ -1074,15 +1484,19 @@ func checkUtil(c UtilCase) (in info, msg string) {
 				return in, errf("result has length %d but capacity %d: not clipped, appending would overwrite what follows the kept elements", m, cap(got))
 			}
 		}
-		sorted := slices.Clone(arr[:n])
-		sort.Ints(sorted)
-		for i := range sorted {
-			if sorted[i] != elemBase+i {
-				return in, errf("the slice is no longer a permutation of its original contents: now %s", brief(arr[:n]))
-			}
+		free := make([]bool, n)
+		for i := range free {
+			free[i] = true
 		}
-		if !slices.Equal(arr[:m], want) {
-			return in, errf("the slice does not start with the kept elements: now %s", brief(arr[:n]))
+		for _, x := range arr[:n] {
+			i := indexOf(x, free)
+			if i < 0 {
+				return in, errf("the slice is no longer a permutation of its original contents: now %s", k.brief(arr[:n]))
+			}
+			free[i] = false
+		}
+		if !k.equal(arr[:m], want) {
+			return in, errf("the slice does not start with the kept elements: now %s", k.brief(arr[:n]))
 		}
 		if b := behind(); b != "" {
 			return in, b
@@ -1093,17 +1507,17 @@ func checkUtil(c UtilCase) (in info, msg string) {
 
 	case "Rotate":
 		in.set(c17FnRotate)
-		call = fmt.Sprintf("Rotate(len %d, k=%d, spare capacity %d)", n, k, spare)
-		allowed := k >= -n && k <= n
-		pv := vk.PanicValue(func() { slice.Rotate(vs, k) })
+		call = fmt.Sprintf("Rotate%s(len %d, k=%d, spare capacity %d)", k.tag, n, kk, spare)
+		allowed := kk >= -n && kk <= n
+		pv := vk.PanicValue(func() { slice.Rotate(vs, kk) })
 		if allowed {
 			if pv != nil {
 				return in, errf("panicked for -len <= k <= len: %v", pv)
 			}
 			for i := 0; i < n; i++ {
-				j := ((i+k)%n + n) % n
-				if arr[j] != elemBase+i {
-					return in, errf("the element originally at index %d must be at index %d, which holds the one from index %d; slice now %s", i, j, arr[j]-elemBase, brief(arr[:n]))
+				j := ((i+kk)%n + n) % n
+				if !k.strict(arr[j], orig[i]) {
+					return in, errf("the element originally at index %d must be at index %d, which holds the one from index %d; slice now %s", i, j, k.v(arr[j])-elemBase, k.brief(arr[:n]))
 				}
 			}
 			if b := behind(); b != "" {
@@ -1112,26 +1526,26 @@ func checkUtil(c UtilCase) (in info, msg string) {
 		} else {
 			in.set(c17Panic)
 			if pv == nil {
-				return in, errf("k is out of range [-len, len] but Rotate did not panic; slice now %s", brief(arr[:n]))
+				return in, errf("k is out of range [-len, len] but Rotate did not panic; slice now %s", k.brief(arr[:n]))
 			}
 		}
 		g := 0 // number of cycles of a proper rotation (0 for the identity)
 		if allowed && n > 0 {
-			if kk := ((k % n) + n) % n; kk != 0 {
-				g = gcdRef(kk, n)
+			if r := ((kk % n) + n) % n; r != 0 {
+				g = gcdRef(r, n)
 			}
 		}
 		in.setIf(g > 1, c17Gcd)
-		b := near(k, -n-1, -n, -n+1, -1, 0, 1, n-1, n, n+1)
+		b := near(kk, -n-1, -n, -n+1, -1, 0, 1, n-1, n, n+1)
 		in.setIf(b, c17Boundary)
 		in.nt = b || g > 1 || n == 0
 
 	case "Chunks":
 		in.set(c17FnChunks)
-		call = fmt.Sprintf("Chunks(len %d, n=%d, spare capacity %d)", n, k, spare)
-		var out [][]int
-		pv := vk.PanicValue(func() { out = slice.Chunks(vs, k) })
-		if k < 0 {
+		call = fmt.Sprintf("Chunks%s(len %d, n=%d, spare capacity %d)", k.tag, n, kk, spare)
+		var out [][]T
+		pv := vk.PanicValue(func() { out = slice.Chunks(vs, kk) })
+		if kk < 0 {
 			in.set(c17Panic)
 			if pv == nil {
 				return in, errf("n < 0 but Chunks did not panic (returned pieces of lengths %v)", lens(out))
@@ -1143,16 +1557,16 @@ func checkUtil(c UtilCase) (in info, msg string) {
 			if _, _, m := pieces(out); m != "" {
 				return in, m
 			}
-			if k == 0 {
+			if kk == 0 {
 				if len(out) != 1 {
 					return in, errf("n == 0 must give a single chunk with the entire input, got %d chunks of lengths %v", len(out), lens(out))
 				}
 			} else {
 				for idx, p := range out {
-					if idx < len(out)-1 && len(p) != k {
-						return in, errf("chunk #%d has length %d, every chunk but the last must have length %d; lengths %v", idx, len(p), k, lens(out))
+					if idx < len(out)-1 && len(p) != kk {
+						return in, errf("chunk #%d has length %d, every chunk but the last must have length %d; lengths %v", idx, len(p), kk, lens(out))
 					}
-					if len(p) > k {
+					if len(p) > kk {
 						return in, errf("chunk #%d has length %d > n; lengths %v", idx, len(p), lens(out))
 					}
 				}
@@ -1160,18 +1574,18 @@ func checkUtil(c UtilCase) (in info, msg string) {
 			if u := untouched(); u != "" {
 				return in, u
 			}
-			in.setIf(k > 0 && n%k != 0 && n > k, c17Uneven)
+			in.setIf(kk > 0 && n%kk != 0 && n > kk, c17Uneven)
 		}
-		b := near(k, -1, 0, 1, n-1, n, n+1)
+		b := near(kk, -1, 0, 1, n-1, n, n+1)
 		in.setIf(b, c17Boundary)
 		in.nt = b || n == 0
 
 	case "Batches":
 		in.set(c17FnBatches)
-		call = fmt.Sprintf("Batches(len %d, n=%d, spare capacity %d)", n, k, spare)
-		var out [][]int
-		pv := vk.PanicValue(func() { out = slice.Batches(vs, k) })
-		if k < 0 {
+		call = fmt.Sprintf("Batches%s(len %d, n=%d, spare capacity %d)", k.tag, n, kk, spare)
+		var out [][]T
+		pv := vk.PanicValue(func() { out = slice.Batches(vs, kk) })
+		if kk < 0 {
 			in.set(c17Panic)
 			if pv == nil {
 				return in, errf("n < 0 but Batches did not panic (returned pieces of lengths %v)", lens(out))
@@ -1180,7 +1594,7 @@ func checkUtil(c UtilCase) (in info, msg string) {
 			if pv != nil {
 				return in, errf("panicked for n >= 0: %v", pv)
 			}
-			want := min(k, n)
+			want := min(kk, n)
 			if len(out) != want {
 				return in, errf("got %d batches of lengths %v, want exactly min(n, len) = %d", len(out), lens(out), want)
 			}
@@ -1195,7 +1609,7 @@ func checkUtil(c UtilCase) (in info, msg string) {
 				if hi != lo {
 					in.set(c17Uneven)
 					first, last := len(out[0]) == hi, len(out[len(out)-1]) == hi
-					sortedDesc := slices.IsSortedFunc(out, func(a, b []int) int { return cmp.Compare(len(b), len(a)) })
+					sortedDesc := slices.IsSortedFunc(out, func(a, b []T) int { return cmp.Compare(len(b), len(a)) })
 					in.setIf(first && sortedDesc, c17LargerFirst)
 					in.setIf(last && !first, c17LargerLast)
 					if batchesLargerFirst && !sortedDesc {
@@ -1207,7 +1621,7 @@ func checkUtil(c UtilCase) (in info, msg string) {
 				return in, u
 			}
 		}
-		b := near(k, -1, 0, 1, n-1, n, n+1)
+		b := near(kk, -1, 0, 1, n-1, n, n+1)
 		in.setIf(b, c17Boundary)
 		in.nt = b || n == 0
 
@@ -1215,56 +1629,56 @@ func checkUtil(c UtilCase) (in info, msg string) {
 		head := c.Fn == "Head"
 		in.setIf(head, c17FnHead)
 		in.setIf(!head, c17FnTail)
-		if k < 0 {
-			k = -k // only n >= 0 is a documented argument
-			if k < 0 {
-				k = math.MaxInt
+		if kk < 0 {
+			kk = -kk // only n >= 0 is a documented argument
+			if kk < 0 {
+				kk = math.MaxInt
 			}
 		}
-		call = fmt.Sprintf("%s(len %d, n=%d, spare capacity %d)", c.Fn, n, k, spare)
-		var got []int
+		call = fmt.Sprintf("%s%s(len %d, n=%d, spare capacity %d)", c.Fn, k.tag, n, kk, spare)
+		var got []T
 		pv := vk.PanicValue(func() {
 			if head {
-				got = slice.Head(vs, k)
+				got = slice.Head(vs, kk)
 			} else {
-				got = slice.Tail(vs, k)
+				got = slice.Tail(vs, kk)
 			}
 		})
 		if pv != nil {
 			return in, errf("panicked: %v", pv)
 		}
-		m := min(k, n)
+		m := min(kk, n)
 		off := 0
 		if !head {
 			off = n - m
 		}
 		if len(got) != m {
-			return in, errf("result %s has length %d, want min(n, len) = %d", brief(got), len(got), m)
+			return in, errf("result %s has length %d, want min(n, len) = %d", k.brief(got), len(got), m)
 		}
 		if m > 0 && &got[0] != &vs[off] {
-			return in, errf("result %s is not the subslice of the input starting at offset %d", brief(got), off)
+			return in, errf("result %s is not the subslice of the input starting at offset %d", k.brief(got), off)
 		}
 		for q := range got {
-			if got[q] != elemBase+off+q {
-				return in, errf("result %s, want the %d elements from offset %d", brief(got), m, off)
+			if !k.strict(got[q], orig[off+q]) {
+				return in, errf("result %s, want the %d elements from offset %d", k.brief(got), m, off)
 			}
 		}
 		if u := untouched(); u != "" {
 			return in, u
 		}
-		b := near(k, 0, 1, n-1, n, n+1)
+		b := near(kk, 0, 1, n-1, n, n+1)
 		in.setIf(b, c17Boundary)
 		in.nt = b || n == 0
 
 	case "Stripe":
 		in.set(c17FnStripe)
-		if k < 0 {
-			k = -k // only i >= 0 is meaningful
+		if kk < 0 {
+			kk = -kk // only i >= 0 is meaningful
 		}
-		rows := make([][]int, len(c.Rows))
+		rows := make([][]T, len(c.Rows))
 		var lensR []int
 		maxLen, have := 0, 0
-		var want []int
+		var want []T
 		for r, l := range c.Rows {
 			if l < 0 {
 				l = 0
@@ -1273,33 +1687,40 @@ func checkUtil(c UtilCase) (in info, msg string) {
 				l = 1000
 			}
 			lensR = append(lensR, l)
-			rows[r] = make([]int, l)
+			if !k.fits(1000*(r+1) + l) {
+				return in, k.allFit([]int{1000*(r+1) + l})
+			}
+			rows[r] = make([]T, l)
 			for j := range rows[r] {
-				rows[r][j] = 1000*(r+1) + j
+				rows[r][j] = k.get(1000*(r+1)+j, 0)
 			}
 			maxLen = max(maxLen, l)
-			if k < l {
+			if kk < l {
 				have++
-				want = append(want, 1000*(r+1)+k)
+				want = append(want, rows[r][kk])
 			}
 		}
-		call = fmt.Sprintf("Stripe(rows of lengths %v, i=%d)", lensR, k)
-		var got []int
-		if pv := vk.PanicValue(func() { got = slice.Stripe(rows, k) }); pv != nil {
+		rows0 := make([][]T, len(rows)) // the rows as they were
+		for r := range rows {
+			rows0[r] = slices.Clone(rows[r])
+		}
+		call = fmt.Sprintf("Stripe%s(rows of lengths %v, i=%d)", k.tag, lensR, kk)
+		var got []T
+		if pv := vk.PanicValue(func() { got = slice.Stripe(rows, kk) }); pv != nil {
 			return in, errf("panicked: %v", pv)
 		}
-		if !slices.Equal(got, want) {
-			return in, errf("result %s, want %s (row r holds 1000*(r+1)+j at column j)", brief(got), brief(want))
+		if !k.equal(got, want) {
+			return in, errf("result %s, want %s (row r holds 1000*(r+1)+j at column j)", k.brief(got), k.brief(want))
 		}
 		for r := range rows {
 			for j := range rows[r] {
-				if rows[r][j] != 1000*(r+1)+j {
+				if !k.strict(rows[r][j], rows0[r][j]) {
 					return in, errf("row %d was modified at column %d", r, j)
 				}
 			}
 		}
 		ragged := have > 0 && have < len(rows)
-		b := len(rows) == 0 || k >= maxLen-1
+		b := len(rows) == 0 || kk >= maxLen-1
 		in.setIf(b, c17Boundary)
 		in.setIf(ragged, c17Uneven)
 		in.setIf(len(rows) == 0, c17Empty)
@@ -1309,31 +1730,34 @@ func checkUtil(c UtilCase) (in info, msg string) {
 		at := c.Fn == "At"
 		in.setIf(at, c17FnAt)
 		in.setIf(!at, c17FnPtrAt)
-		call = fmt.Sprintf("%s(len %d, i=%d)", c.Fn, n, k)
-		valid := k >= -n && k < n
-		idx := k
-		if k < 0 {
-			idx = k + n
+		call = fmt.Sprintf("%s%s(len %d, i=%d)", c.Fn, k.tag, n, kk)
+		valid := kk >= -n && kk < n
+		idx := kk
+		if kk < 0 {
+			idx = kk + n
 		}
 		if at {
-			var got int
-			pv := vk.PanicValue(func() { got = slice.At(vs, k) })
+			var got T
+			pv := vk.PanicValue(func() { got = slice.At(vs, kk) })
 			if valid {
 				if pv != nil {
 					return in, errf("panicked for an index in range: %v", pv)
 				}
-				if got != elemBase+idx {
-					return in, errf("returned the element of index %d, want index %d", got-elemBase, idx)
+				if !k.strict(got, orig[idx]) {
+					if k.v(got)-elemBase == idx {
+						return in, errf("returned %s, which looks like the element of index %d but is not that element (a copy)", k.show(got), idx)
+					}
+					return in, errf("returned the element of index %d, want index %d", k.v(got)-elemBase, idx)
 				}
 			} else {
 				in.set(c17Panic)
 				if pv == nil {
-					return in, errf("index out of range but At did not panic (returned %d)", got)
+					return in, errf("index out of range but At did not panic (returned %s)", k.show(got))
 				}
 			}
 		} else {
-			var p *int
-			if pv := vk.PanicValue(func() { p = slice.PtrAt(vs, k) }); pv != nil {
+			var p *T
+			if pv := vk.PanicValue(func() { p = slice.PtrAt(vs, kk) }); pv != nil {
 				return in, errf("panicked (PtrAt never panics): %v", pv)
 			}
 			if valid {
@@ -1341,17 +1765,17 @@ func checkUtil(c UtilCase) (in info, msg string) {
 					return in, errf("returned nil for an index in range")
 				}
 				if p != &vs[idx] {
-					return in, errf("the pointer does not point at element %d of the slice (it points at a value %d)", idx, *p)
+					return in, errf("the pointer does not point at element %d of the slice (it points at a value %s)", idx, k.show(*p))
 				}
 			} else if p != nil {
-				return in, errf("index out of range but PtrAt returned a non-nil pointer (to %d)", *p)
+				return in, errf("index out of range but PtrAt returned a non-nil pointer (to %s)", k.show(*p))
 			}
 		}
 		if u := untouched(); u != "" {
 			return in, u
 		}
-		in.setIf(valid && k < 0, c17NegIdx)
-		b := near(k, -n-1, -n, -1, 0, n-1, n)
+		in.setIf(valid && kk < 0, c17NegIdx)
+		b := near(kk, -n-1, -n, -1, 0, n-1, n)
 		in.setIf(b, c17Boundary)
 		in.nt = b || n == 0
 
@@ -1361,7 +1785,7 @@ func checkUtil(c UtilCase) (in info, msg string) {
 	return in, ""
 }
 
-func lens(out [][]int) []int {
+func lens[T any](out [][]T) []int {
 	l := make([]int, len(out))
 	for i, p := range out {
 		l[i] = len(p)
